@@ -104,6 +104,29 @@ def sanitizer_key(stderr):
     return kind + ":" + "<".join(frames)
 
 
+_MEMCHECK = re.compile(r"==\d+== (Invalid (?:read|write|free)[^\n]*|Conditional jump or move depends on uninitialised[^\n]*|"
+                       r"Use of uninitialised[^\n]*|Syscall param [^\n]*|Mismatched free[^\n]*|Source and destination overlap[^\n]*|"
+                       r"Argument '[^\n]*|Jump to the invalid address[^\n]*|Process terminating[^\n]*)")
+_VGFRAME = re.compile(r"==\d+==\s+(?:at|by) 0x[0-9A-F]+: (\S+) \(([^)]*)\)")
+
+
+def memcheck_key(stderr):
+    """stable key for the first valgrind memcheck error in stderr, or None"""
+    m = _MEMCHECK.search(stderr)
+    if not m:
+        return None
+    kind = re.sub(r"\d+", "N", m.group(1)).strip().replace(" ", "-")[:50]
+    frames = []
+    for fm in _VGFRAME.finditer(stderr, m.end()):
+        fn, loc = fm.group(1), fm.group(2)
+        if re.match(r"(ctx|mod|ps|src|evts|main|map|bst|list|queue|stack|mem|thpool|utils|log|epoll|cmn_linux|poll_\w+)\.c:", loc):
+            frames.append(fn)
+            break
+        if len(frames) > 30:
+            break
+    return "memcheck:%s:%s" % (kind, "<".join(frames))
+
+
 def tsan_reports(text):
     """split a TSan log into reports; return list of (key, report_text)"""
     out = []
@@ -178,6 +201,10 @@ def classify_exit(rc, stdout, stderr):
     sk = sanitizer_key(stderr)
     if sk:
         return sk, stderr[-3000:]
+    if rc == 95:
+        mk = memcheck_key(stderr)
+        if mk:
+            return mk, stderr[:3000]
     if isinstance(rc, int) and rc < 0:
         try:
             name = signal.Signals(-rc).name
@@ -190,10 +217,15 @@ def classify_exit(rc, stdout, stderr):
     return None
 
 
-def run_harness_parallel(res, exe, arglists, timeout, key_prefix, env_extra=None, label="case"):
-    """run exe once per arglist (in parallel); fold protocol output into res"""
+MEMCHECK = ["valgrind", "-q", "--error-exitcode=95", "--leak-check=no", "--num-callers=24"]
+
+
+def run_harness_parallel(res, exe, arglists, timeout, key_prefix, env_extra=None, label="case", wrapper=None):
+    """run exe once per arglist (in parallel); fold protocol output into res.  wrapper: command prefix (e.g. MEMCHECK)"""
+    wrapper = wrapper or []
+
     def one(args):
-        return args, run_proc([exe] + [str(a) for a in args], timeout, env_extra)
+        return args, run_proc(wrapper + [exe] + [str(a) for a in args], timeout, env_extra)
     with ThreadPoolExecutor(NPROC) as ex:
         outs = list(ex.map(one, arglists))
     for args, (rc, out, err, dt) in outs:
@@ -204,7 +236,7 @@ def run_harness_parallel(res, exe, arglists, timeout, key_prefix, env_extra=None
         for s in samples:
             if len(res.samples) < 5:
                 res.samples.append(s)
-        replay = {"cmd": [exe] + [str(a) for a in args], "stdout_tail": out[-2000:], "stderr_tail": err[-4000:]}
+        replay = {"cmd": wrapper + [exe] + [str(a) for a in args], "stdout_tail": out[-2000:], "stderr_tail": err[-4000:]}
         if rc == "timeout":
             res.inconclusive.append({"what": "watchdog", "args": [str(a) for a in args]})
             continue
